@@ -43,29 +43,28 @@ def run(ctx):
         raise Machinery("harness observed %d of %d CT cases" % (len(pairs), n))
     if st.get("rejected", 0):
         raise Machinery("%d certificates with CT extensions were not accepted by ParseCertificate - nothing to judge" % st["rejected"])
-    rej = []
-    chunk = 4000
-    for a in range(0, len(pairs), chunk):
-        part = pairs[a:a + chunk]
-        for (i, bad, _) in ic.tlc_judge(ctx, TR[0], TR[1], "metapair", part, label="Trace_Issuance metapair [%d]" % len(part)):
-            rej.append((a + i, bad))
+    # all three kinds of observation (pairs, relation cases, single certificates) are judged together below
     ctx.cov["evaluations"] += len(pairs)
     ctx.cov["distinct_nontrivial"] += sum(1 for r in pairs if len(r["c"]["base"]) > 0)
-    ctx.cov["traces_validated_against_impl"] += len(pairs) - len(rej)
     ctx.cov["exhaustive"] = True
     ctx.cov["ct_cases"] = n
     ctx.cov["rule"] = ("every extension list without repetition up to length %d over %s kinds x every insertion position of "
                        "{poison, SCT list, empty SCT list, poison+SCT list} x {self-signed, self-issued with a foreign signature, "
                        "issued}: two real certificates per case; non-trivial = the certificate has at least one non-CT extension; "
                        "plus created / mutated / repository certificates judged one by one" % ((3, 3) if quick else (4, 5)))
-    pc = []
-    for (i, bad) in rej:
-        c = pairs[i]["c"]
-        pc.append({"sig": {"obj": "ctpair", "fields": ",".join(bad), "sign": c["sign"], "base_empty": len(c["base"]) == 0,
-                           "both_ct": "poison" in c["ct"] and ("sct" in c["ct"] or "sct0" in c["ct"])},
-                   "what": "CT placement case %s rejected by PairOK: %s" % (json.dumps(c), bad), "case": {"c": c}})
-    ic.val_candidates(ctx, pc, lambda rp, out: ctx.run(binary, ["one", terms, rp, out]), TR[0], TR[1], "metapair")
-
+    # SelfSigned: issuer/subject relation x own signature x key type (TLC-enumerated, judged by RelOK)
+    relcases = ctx.path("relcases.ndjson")
+    os.replace(ctx.specfile("iss_rel_cases.ndjson"), relcases)
+    nrel = sum(1 for _ in open(relcases))
+    out_r = ctx.path("rels.ndjson")
+    p = ctx.run(binary, ["rels", terms, relcases, out_r], timeout=1500)
+    _, st_r = ctx.harness_output(p)
+    rels = read_ndjson(out_r)
+    if nrel == 0 or st_r.get("cases") != nrel or len(rels) != nrel:
+        raise Machinery("relation cases: %s of %d observed" % (len(rels), nrel))
+    ctx.cov["evaluations"] += len(rels)
+    ctx.cov["distinct_nontrivial"] += sum(1 for r in rels if r["c"]["rel"] != "identical")
+    ctx.cov["name_relation_cases"] = nrel
     # U3: created / mutated / repository certificates, one observation each, judged by MetaOK
     ncreate = 250 if quick else 2500
     out2 = ctx.path("corpus.ndjson")
@@ -78,24 +77,42 @@ def run(ctx):
         raise Machinery("no mutated or no repository certificate was accepted: %s" % st2)
     if st2.get("own_signature", {}).get("yes", 0) == 0 or st2.get("own_signature", {}).get("no", 0) == 0:
         raise Machinery("self-signature oracle never said yes / no: %s" % st2)
-    rej2 = []
-    for a in range(0, len(recs), 4000):
-        part = recs[a:a + 4000]
-        for (i, bad, _) in ic.tlc_judge(ctx, TR[0], TR[1], "meta", part, label="Trace_Issuance meta [%d]" % len(part)):
-            rej2.append((a + i, bad))
+    allobs = pairs + rels + recs
+    rej, rej_r, rej2 = [], [], []
+    for a in range(0, len(allobs), 4000):
+        part = allobs[a:a + 4000]
+        for (i, bad, _) in ic.tlc_judge(ctx, TR[0], TR[1], "metamixed", part, label="Trace_Issuance pairs/relations/certificates [%d]" % len(part)):
+            j = a + i
+            if j < len(pairs):
+                rej.append((j, bad))
+            elif j < len(pairs) + len(rels):
+                rej_r.append((j - len(pairs), bad))
+            else:
+                rej2.append((j - len(pairs) - len(rels), bad))
+    ctx.cov["traces_validated_against_impl"] += len(allobs) - len(rej) - len(rej_r) - len(rej2)
+    cands = []
+    for (i, bad) in rej:
+        c = pairs[i]["c"]
+        cands.append({"sig": {"obj": "ctpair", "fields": ",".join(bad), "sign": c["sign"], "base_empty": len(c["base"]) == 0,
+                              "both_ct": "poison" in c["ct"] and ("sct" in c["ct"] or "sct0" in c["ct"])},
+                      "what": "CT placement case %s rejected by PairOK: %s" % (json.dumps(c), bad), "case": {"c": c}})
+    for (i, bad) in rej_r:
+        c = rels[i]["c"]
+        cands.append({"sig": {"obj": "namerel", "rel": c["rel"], "own": c["own"], "fields": ",".join(bad)},
+                      "what": "issuer/subject relation case %s rejected by RelOK: %s (SelfSigned=%s)" % (json.dumps(c), bad, rels[i]["o"]["selfSigned"]),
+                      "case": {"relcase": c}})
     ctx.cov["evaluations"] += len(recs)
     ctx.cov["distinct_nontrivial"] += st2.get("mutated_accepted", 0) + st2.get("repo_accepted", 0)
-    ctx.cov["traces_validated_against_impl"] += len(recs) - len(rej2)
     ctx.cov["corpus"] = {k: st2.get(k) for k in ("created", "mutated", "mutated_accepted", "repo_certs", "repo_accepted",
                                                  "slice_failed", "self_signed", "own_signature")}
-    mc = []
+    mc = cands
     for (i, bad) in rej2:
         r = recs[i]
         src = r["src"].split(":")[0]
         mc.append({"sig": {"obj": "cert-meta", "fields": ",".join(bad), "src": src, "canonical": r["canonical"]},
                    "what": "metadata of a %s certificate rejected by MetaOK: %s" % (r["src"], bad),
                    "case": {"der": r["der"], "canonical": r["canonical"], "src": r["src"]}})
-    ic.val_candidates(ctx, mc, lambda rp, out: ctx.run(binary, ["one", terms, rp, out]), TR[0], TR[1], "meta")
+    ic.val_candidates(ctx, mc, lambda rp, out: ctx.run(binary, ["one", terms, rp, out]), TR[0], TR[1], "metamixed")
 
     if not quick:
         import copy
@@ -107,6 +124,10 @@ def run(ctx):
         rec["noctEqual"] = False
         if not ic.tlc_judge(ctx, TR[0], TR[1], "metapair", [rec], label="selftest noct"):
             raise Machinery("selftest: a changed no-CT fingerprint was accepted")
+        rec = copy.deepcopy(next(r for r in rels if r["c"]["rel"] == "string-type" and r["c"]["own"]))
+        rec["o"]["selfSigned"] = True
+        if not ic.tlc_judge(ctx, TR[0], TR[1], "metarel", [rec], label="selftest relation"):
+            raise Machinery("selftest: SelfSigned on names that only look alike was accepted")
         ctx.note("binding self-test passed (corrupted observations rejected)")
 
 
@@ -117,7 +138,8 @@ def replay(ctx, path):
     terms = ctx.path("terms.json")
     os.replace(ctx.specfile("iss_meta_terms.json"), terms)
     body = json.load(open(path))
-    kind = "metapair" if body.get("case", {}).get("c") else "meta"
+    case = body.get("case", {})
+    kind = "metarel" if case.get("relcase") else ("metapair" if case.get("c") else "meta")
     again = reproduce(ctx, binary, terms, path, kind)
     print("REPRODUCED" if again else "not reproduced")
     return 1 if again else 0
